@@ -14,7 +14,22 @@ import z3
 import vcommon as V
 from vcommon import log
 import native as N
-import mir, sym, opkernels as K, opcheck as Q, builtinkernels as B
+import mir, sym, opkernels as K, opcheck as Q, builtinkernels as B, strkernels as S
+
+
+def string_summaries(sk, tier, disp=None):
+    """one summary per (method, receiver length[, inserted length]) within the stated bounds"""
+    out = []
+    for m, (variant, argk) in S.METHODS.items():
+        if disp is not None:
+            variant = disp.get(("Str", m)) or variant
+        for n in range(S.LMAX.get(tier, 3) + 1):
+            for k in (range(S.IMAX.get(tier, 2) + 1) if m == "insert" else [0]):
+                out.append(sk.summarize(m, variant, n, k))
+    return out
+
+
+STR_DECLARED = {"len": "int", "substring": "str", "delete": "str", "insert": "str", "reverse": "str", "split": "[str,str]"}
 
 
 def cases(tier):
@@ -166,6 +181,32 @@ def check(scratch, nat, a, t0):
         un = {(s.op, s.kinds[0]) for s in summaries if s.uninterpreted}
         for f in pf:
             f.summ_uninterpreted = (f.op, f.arm.split(",")[0]) in un
+        # string methods with index arithmetic: bounded ASCII receivers, full-width symbolic indices
+        sk = S.StrKernels(bk.mf, oc, scratch.repo, seed=V.seed())
+        info["functions"][profile].update(sk.encoded_functions())
+        for m, want in STR_DECLARED.items():
+            d = decl.get(("Str", m))
+            if disp.get(("Str", m)) is None:
+                pf.append(table_finding("str." + m, "Str", "declared-but-not-dispatched", profile, "`str.%s` is not resolved by Primitive::lookup" % m))
+            elif (d or "").replace(" ", "") != want:
+                pf.append(table_finding("str." + m, "Str", "declared-kind-differs", profile, "declared result type `%s`, the method yields %s" % (d, want)))
+            else:
+                qs.obligations += 1
+                qs.discharged += 1
+        ssum = string_summaries(sk, a.tier, disp)
+        n2, mism2 = S.validate(ssum, nat.eval, release)
+        info["validation_vectors"][profile + ":string-methods"] = n2
+        if mism2:
+            for m in mism2[:10]:
+                log("  TRANSLATOR MISMATCH", m)
+            raise V.Inconclusive("engine B disagrees with the real string built-ins on %d of %d vectors (%s), first: %r" % (len(mism2), n2, profile, mism2[0]))
+        info["paths"][profile] += sum(len(s_.paths) for s_ in ssum)
+        for s_ in ssum:
+            pf += S.check_summary(s_, profile, qs, timeout_ms, V.seed(), "C14")
+        for f in pf:
+            if not hasattr(f, "summ_uninterpreted"):
+                f.summ_uninterpreted = False
+        log("  [%s] string methods: %d summaries, %d validation vectors agree" % (profile, len(ssum), n2))
         confirm(pf, nat, release)
         findings += pf
         log("  [%s] %d obligations so far, %d candidate findings" % (profile, qs.obligations, len(pf)))
@@ -250,6 +291,10 @@ def report(a, findings, qs, info, t0):
             json.dump([{"property": "C14", "fn": f.op, "arm": f.arm, "class": f.cls, "profile": f.profile, "what": f.detail,
                         "example": " ".join("%s:%s" % (k, hex(v)) for k, v in f.witness) + " -> " + json.dumps(f.native)} for f in new], fh, indent=1)
     code = V.EXIT_OK
+    uniq = {}
+    for f in new:
+        uniq.setdefault(f.key(), f)
+    new = list(uniq.values())
     for f in new:
         p = V.save_replay("C14", "%s_%s_%s_%s" % (f.op, f.arm.replace(",", "-").replace("<", "lt").replace("=", ""), f.cls.replace(":", "-"), f.profile), f.as_dict())
         print("VIOLATION property=C14 replay=%s" % p)
@@ -271,15 +316,15 @@ def report(a, findings, qs, info, t0):
         "trusted_base": ["rustc MIR dump of `bytecode` (both overflow profiles)",
                          "mirsym interpreter, validated on this run against the real BuiltInFunction::run on %s boundary vectors" % info["validation_vectors"],
                          "std models: " + ", ".join(sorted(set(sum(info["models"].values(), [])))),
-                         "f64::powi / f64::powf are uninterpreted functions", "oracle: /verif/mirsym/builtinkernels.py oracle()"],
+                         "f64::powi / f64::powf are uninterpreted functions", "oracle: /verif/mirsym/builtinkernels.py oracle(), /verif/mirsym/strkernels.py oracle()"],
         "functions_encoded": info["functions"], "paths": info["paths"],
-        "bounds": "methods to_int,to_bigint,to_byte,to_float,abs,sqrt,pow,powf,fpart,ipart,round,floor,ceil; every numeric receiver kind, full-width symbolic payload; pow: exponents 0..%d exact + all negative exponents, larger exponents outside the claim; string methods outside" % B.POW_EXPONENTS[-1],
+        "bounds": "numeric methods to_int,to_bigint,to_byte,to_float,abs,sqrt,pow,powf,fpart,ipart,round,floor,ceil: every numeric receiver kind, full-width symbolic payload; pow: exponents 0..%d exact + all negative exponents, larger exponents outside the claim. String methods len,substring,delete,insert,split,reverse: receiver length 0..%d, inserted text length 0..%d, every character symbolic in 0x20..0x7E (multi-byte text outside the claim), every index a full-width symbolic i32; contains/index_of/replace/chars/repetition/concatenation and string indexing outside" % (B.POW_EXPONENTS[-1], S.LMAX.get(a.tier, 3), S.IMAX.get(a.tier, 2)),
         "solver_time_s": round(qs.solver_s, 2),
         "samples": qs.samples[:8] + [f.as_dict() for f in (new + listed)[:6]],
         "known_findings_reported": len(seen), "new_violations": len(new),
     }
     V.write_evidence("C14", a.tier, "proof", coverage,
-                     ["numeric half of the property only; string methods are outside this claim (see DESIGN.md)"], time.time() - t0, len(new))
+                     ["numeric methods and the index-arithmetic string methods; the remaining string methods (pattern search, chars, repetition, concatenation, indexing) and multi-byte text are outside this claim (see DESIGN.md)"], time.time() - t0, len(new))
     log("C14: %d obligations, %d discharged, %d known keys, %d new, %d non-reproducing, %.1fs" % (qs.obligations, qs.discharged, len(seen), len(new), len(bad), time.time() - t0))
     return code
 
